@@ -131,6 +131,8 @@ def alter_py(v):
     if isinstance(v, int):
         return v + 1
     if isinstance(v, float):
+        if v in (float("inf"), float("-inf")):
+            return 0.0
         return v + 1.5 if abs(v) < 1e15 else v / 2
     if isinstance(v, str):
         return v + "~"
